@@ -85,6 +85,19 @@ def fam_items(rng):
     return dump, vals
 
 
+def fam_deep(rng):
+    """deeply nested values: many calls are in flight at once while a thread is suspended"""
+    def nest(depth, leaf):
+        v = leaf
+        for i in range(depth):
+            v = [v] if i % 2 == 0 else {"k": v}
+        return v
+    dump = rng.choice([{"cls": "Element", "kw": {}},
+                       {"cls": "AnyOf", "kw": {}, "elements": [{"cls": "String", "kw": {}}, {"cls": "Element", "kw": {}}]}])
+    depths = [rng.choice([40, 55, 70]) for _ in range(4)]
+    return dump, [nest(d, rng.choice([1, "x", None])) for d in depths]
+
+
 def build_shared_wrapper():
     """one Property object placed under two different names (outside the theorem's hypothesis)"""
     p = Property(String(minLength=1))
@@ -212,7 +225,7 @@ def run(ctx, scale=1.0):
     n_sched = N_SCHED[ctx["tier"]]
     vg, dg, sg = ValueGen(rng), dsl.DumpGen(rng), SchemaGen(rng, titled=True)
     for i in range(n_scen):
-        fam = ["dump", "class", "defaults", "additional", "items", "parsed", "defaults", "additional"][i % 8]
+        fam = ["dump", "class", "defaults", "additional", "items", "parsed", "defaults", "additional", "deep"][i % 9]
         stats["family-" + fam] = stats.get("family-" + fam, 0) + 1
         n_threads = rng.choice([2, 2, 3])
         if fam == "defaults":
@@ -221,6 +234,8 @@ def run(ctx, scale=1.0):
             dump, vals = fam_additional(rng)
         elif fam == "items":
             dump, vals = fam_items(rng)
+        elif fam == "deep":
+            dump, vals = fam_deep(rng)
         elif fam == "parsed":
             schema = sg.schema(3)
             kind, el = core.real_parse(schema)
@@ -240,6 +255,8 @@ def run(ctx, scale=1.0):
             except Exception:  # noqa: BLE001
                 vals = [core.NP, {}, [], "a", 1]
         rng.shuffle(vals)
+        if fam == "deep":
+            n_threads = 3
         per_thread = split_values(rng, vals, n_threads)
         try:
             dsl.build(dump)
